@@ -89,6 +89,19 @@ def run(ctx, prop):
     hist = {"variants": 0, "not_admitted": 0, "identical": 0, "doc_variants": 0, "marking_runs": 0, "flag_runs": 0}
     distinct = set()
     progs = [gen.gen_case(ctx.rng, opts, cid=f"C14-{ctx.seed}-{i}") for i in range(nprog)]
+    # fixed: unrelated interfaces whose methods share names, each with documentation of its own
+    # (whatever is keyed by a method's name alone must not carry text from one to the other)
+    def _dm(name, doc, params):
+        return {"k": "method", "name": name, "optional": False, "doc": doc, "params": params}
+    _p = lambda d, t, n: {"dir": d, "type": t, "arr": None, "name": n}
+    progs.insert(0, {"id": "C14-samenames", "main": "main.idl", "incdirs": [], "files": [{"path": "main.idl", "nodes": [
+        {"k": "interface", "name": "IStoreD", "base": None, "members": [
+            _dm("open", "Opens the STORE by key.", [_p("in", "uint32", "key")]),
+            _dm("close", "Closes the STORE.", [])]},
+        {"k": "interface", "name": "IChannelD", "base": None, "members": [
+            _dm("open", "Opens the CHANNEL on a port.", [_p("in", "uint16", "port"), _p("out", "uint32", "handle")]),
+            _dm("close", None, []),
+            _dm("flush", "Flushes the CHANNEL.", [])]}]}]})
     for case in progs:
         text = idl.render_file(case["files"][0])
         toks, tail = tokenize(text)
@@ -106,11 +119,23 @@ def run(ctx, prop):
             # `/** c */` on one line and `/**/` are ORDINARY comments (documentation needs a line
             # break after `/**`) although they begin like documentation
             kinds = TRIVIA if ctx.tier == "thorough" else [" ", "\n", "// c\n", "/* c */", "/*é*/", "/** c */", "/**/"]
+            # comments whose TEXT looks like comment syntax: a block comment ends at the first `*/`
+            # whatever it contains, a line comment at the line break. Where the plain `/* c */` is
+            # admitted these are admitted too (judged against that, not against the parser alone)
+            kinds = list(kinds) + ["/* a /* b */", "/* // */", "// /* c\n", "/* * / */"]
             for gap in range(len(toks) + 1):
+                plain_ok = None
                 for tr in kinds:
                     open(mainp, "w").write(with_trivia(toks, tail, gap, tr))
                     hist["variants"] += 1
-                    if not pst_ok(ctx, mainp):
+                    admitted = pst_ok(ctx, mainp)
+                    if tr == "/* c */":
+                        plain_ok = admitted
+                    if not admitted:
+                        if plain_ok and tr in ("/* a /* b */", "/* // */", "// /* c\n", "/* * / */"):
+                            oracle_fail.append({"case": {"idl": with_trivia(toks, tail, gap, tr)[:600]}, "failures": [
+                                {"error": "an ordinary comment is refused where the plain comment `/* c */` is admitted", "trivia": tr,
+                                 "between": list(gap_context(toks, gap))}]})
                         hist["not_admitted"] += 1
                         continue
                     h = gen_hashes(ctx, root)
@@ -208,6 +233,9 @@ def run(ctx, prop):
                         if rc != 0 or strip_comments(new, lang) != strip_comments(outs[b][1], lang):
                             oracle_fail.append({"case": {"idl": open(mainp).read()[:600]}, "failures": [
                                 {"error": "a documentation comment changed more than comment text", "backend": b, "rc": rc}]})
+                        elif "added doc" in doc and "added doc" not in new and b in ("c", "cpp", "rust", "java"):
+                            oracle_fail.append({"case": {"idl": open(mainp).read()[:600]}, "failures": [
+                                {"error": "the documentation text of a method does not appear in the output (other text may have taken its place)", "backend": b}]})
                         elif "added doc" in doc and "added doc" in new:
                             # ... and the text sits on the method that immediately follows it in the IDL
                             mname = next((x for _, x in toks[j:] if x not in ("method",) and not x.startswith("#[")), None)
